@@ -234,6 +234,10 @@ func clauseOf(cmp string, ref reflua.Result, got host.Obs) string {
 		return "spurious-handler"
 	case isH(r) && !isH(g):
 		return "missing-handler"
+	case strings.Contains(g, errInHandling) && !strings.Contains(r, errInHandling):
+		// only a message handler that ran and failed produces this value: golua
+		// ran one (again) where the reference ran none
+		return "spurious-handler"
 	case r != "" && g != "" && looseMatch(r, g):
 		return "position"
 	case isEp(r) && (g == "" || isEp(g)):
@@ -241,6 +245,8 @@ func clauseOf(cmp string, ref reflua.Result, got host.Obs) string {
 	}
 	return "trace"
 }
+
+const errInHandling = `s:"error in error handling"`
 
 // looseMatch: equal except for position prefixes of messages.
 func looseMatch(r, g string) bool {
